@@ -5,7 +5,7 @@ import "strings"
 func init() {
 	register(&propInfo{
 		ID:          "C16",
-		Explanation: "The JSON-any codec dispatches on the dynamic type in four places; the check decides that the four tables are one table: for each clause of appendJSONValue's type switch (Go type, type code, codec, tag) sizeJSONValue has a clause for the same Go type with the same code, codec and tag length; readJSONKV has a case for that code that reads with the same codec into a local of the same Go type and stores it to *val; Descriptor.readJSONObjectKV has a case that decodes with the same grammar and makes exactly one output call; a value carried by its code alone (nil) needs an output on the walker's code path; both writers' default clauses panic (same unsupported set); type codes are pairwise distinct. Size == Append laws for the JSON codecs are decided under C05, bounds of the three readers under C04.",
+		Explanation: "The JSON-any codec dispatches on the dynamic type in four places; the check decides that the four tables are one table: for each clause of appendJSONValue's type switch (Go type, type code, codec, tag) sizeJSONValue has a clause for the same Go type with the same code, codec and tag length; readJSONKV has a case for that code that reads with the same codec into a local of the same Go type and stores it to *val; Descriptor.readJSONObjectKV has a case that decodes with the same grammar and makes exactly one output call; a value carried by its code alone (nil) needs an output on the walker's code path; both writers' default clauses panic (same unsupported set); type codes are pairwise distinct. Size == Append laws for the JSON codecs are decided under C05, bounds of the three readers under C04. (J.protocol, B.jout, round 15) the outputter the walk writes to follows the prefix/emit/punctuate protocol with the package's own escaper for keys, and its indexing is in range at every depth.",
 		NotDecided:  "Round trip of trees as values; nil/empty interchangeability; behaviour as a skipped unknown field beyond the framing check.",
 		Assumptions: []string{"A5"},
 		Run: func(c *Ctx) {
@@ -28,6 +28,10 @@ func init() {
 			ruleSizeLaw(c)
 			ruleFrame(c)
 			c.Floor("X.rejects", 8)
+			// what the Descriptor walk of a JSON value hands to the outputter comes out as valid JSON at every depth:
+			// the outputter's protocol and its bounds (C16-r15-m1, m3)
+			ruleJSONProtocol(c)
+			ruleJOutBounds(c)
 		},
 	})
 }
